@@ -172,8 +172,14 @@ func (h *HashEnv) Reg(k expr.Key) *big.Int {
 	x := hashStr(h.Seed, "r:"+string(k))
 	n := h.RegBytes
 	bs := make([]byte, n)
-	switch x % 8 {
+	switch x % 10 {
 	case 0: // zero
+	case 5: // small low part and one non-zero byte further up: a small shift amount
+		// (or small operand) once it is cut to 1-3 bytes, a huge one uncut
+		bs[0] = byte(x>>8) % 70
+		bs[1+int((x>>16)%4)] = byte(x>>24) | 1
+	case 6: // small two-byte value
+		bs[0], bs[1] = byte(x>>8), byte(x>>16)%9
 	case 1: // all ones
 		for i := range bs {
 			bs[i] = 0xff
